@@ -47,7 +47,7 @@ META = dict(
           "held, sync/atomic use and freshness, the static call graph and the go statements; Coq checks every row against "
           "a hand-written role table and guard assignment (discipline_holds) and instantiates lockset_sound. (c) The "
           "control skeleton of introducerLoop / persisterLoop / mergerLoop / Close is explored exhaustively inside Coq "
-          "(9475 states): no deadlock, the waits without closeCh alternative are answered by their partner, and after "
+          "(10341 states): no deadlock, the waits without closeCh alternative are answered by their partner, and after "
           "Close every run that declines closeCh only finitely often terminates; the skeleton's blocking points are "
           "matched against the regenerated select-site table (sites_match). The runtime side is engine conc: the real "
           "writer under the race detector with perturbed schedules, Close timeout, reopen check, trace inclusion."),
